@@ -41,6 +41,9 @@ type Submitter interface {
 type submissionResult struct {
 	sct *ct.SignedCertificateTimestamp
 	err error
+	// done is non-nil while the outcome of the Log-request is unknown, and is
+	// closed once it is known.
+	done chan struct{}
 }
 
 type groupState struct {
@@ -93,8 +96,20 @@ func (sub *safeSubmissionState) request(logURL string, cancel context.CancelFunc
 		// No groups expecting result from this Log.
 		return false
 	}
+	sub.results[logURL].done = make(chan struct{})
 	sub.cancels[logURL] = cancel
 	return true
+}
+
+// pending returns a channel that is closed once the outcome of the running
+// request to the Log is known, or nil if no request is running.
+func (sub *safeSubmissionState) pending(logURL string) <-chan struct{} {
+	sub.mu.Lock()
+	defer sub.mu.Unlock()
+	if r := sub.results[logURL]; r != nil {
+		return r.done
+	}
+	return nil
 }
 
 // setResult processes SCT-result. Writes it down if it is error or awaited-SCT.
@@ -103,6 +118,11 @@ func (sub *safeSubmissionState) request(logURL string, cancel context.CancelFunc
 func (sub *safeSubmissionState) setResult(logURL string, sct *ct.SignedCertificateTimestamp, err error) {
 	sub.mu.Lock()
 	defer sub.mu.Unlock()
+	if r := sub.results[logURL]; r != nil && r.done != nil {
+		done := r.done
+		r.done = nil
+		defer close(done)
+	}
 	if sct == nil {
 		sub.results[logURL] = &submissionResult{sct: sct, err: err}
 		return
@@ -221,6 +241,14 @@ func groupRace(ctx context.Context, chain []ct.ASN1Cert, asPreChain bool,
 				return
 			}
 			if firstRequested := state.request(logURL, cancel); !firstRequested {
+				// Another group may be talking to this Log already; its answer
+				// counts for this group too, so wait for it.
+				if done := state.pending(logURL); done != nil {
+					select {
+					case <-subCtx.Done():
+					case <-done:
+					}
+				}
 				return
 			}
 			sct, err := submitter.SubmitToLog(subCtx, logURL, chain, asPreChain)
